@@ -21,6 +21,12 @@ CLAIMS = {
                 note=_NOTE, technique="symbolic execution (CrossHair+z3) of the cache wrappers and cached entry points on solver-enumerated 2-3 call histories, compared with the unwrapped functions"),
     "C07": dict(text=_X + ". The real unfold_search is run on search skeletons with symbolic tokens against a reference unfolder written from the statement (aliases, ',' distribution, '**' completion to leaf types, narrowing, trailing query as filter); the only-SpilException clause on fully symbolic short strings with log calls kept.",
                 note=_NOTE, technique="symbolic execution of unfold_search and its unfolders (CrossHair+z3) against a reference unfolder, skeletons with symbolic tokens"),
+    "C05": dict(z=True, text=_X + ". Round trip, purity, root/tail relation between the two configurations and injectivity on the real path()/Sid(path=) code for symbolic field values, with either configuration loaded first; z3 proves for the shipped templates: mappings one-to-one, templates pairwise disjoint on concrete paths, file-name boundaries deterministic, configurations differing only by root.",
+                note=_NOTE, technique="symbolic execution of dict_to_path/path_to_dict/path_to_sid (CrossHair+z3); z3 regular-language disjointness / determinism queries on the shipped path templates"),
+    "C06": dict(z=True, text=_X + ". Sid(path=root+x) for every short string x after each template prefix, both configurations and switched roots: never raises, typed implies path(c) == input; desynchronised repeated fields and changed separators through independent holes.",
+                note=_NOTE, technique="symbolic execution of Sid(path=...) / path_to_dict / dict_to_path (CrossHair+z3) on path skeletons with symbolic holes"),
+    "C14": dict(text=_X + ". Equality vs uri for natural and forced types, Sid==str, ordering by string, hash/set behaviour on a pool, and state snapshots before/after every public operation group with mutation of every returned container.",
+                note=_NOTE, technique="symbolic execution of __eq__/__lt__/fields/get_with/get_as/parent/... (CrossHair+z3) with state snapshots"),
 }
 
 NOT_APPLICABLE = {}
